@@ -410,6 +410,10 @@ func histConfig(g *pkgGen, i int) *genOut {
 			c.Overrides[f] = ov
 		}
 	}
+	// configuration files with the flavours only rpm tells apart (every other format reads them as plain config)
+	c.Contents = append(c.Contents,
+		&files.Content{Source: "src/d/x", Destination: fmt.Sprintf("/etc/hist%d/keep.conf", i), Type: files.TypeConfigNoReplace},
+		&files.Content{Source: "src/f1", Destination: fmt.Sprintf("/etc/hist%d/optional.conf", i), Type: files.TypeConfigMissingOK})
 	// entries addressed to a packager in a spelling the packagers do not recognise (they belong to nobody), next to
 	// properly addressed ones: nothing may "tidy" the tag on the shared entry
 	c.Contents = append(c.Contents,
